@@ -71,10 +71,38 @@ var _ uuid.UUID
 //@ props C06
 //@ assume
 //@ modifies * except type badgerWAL.cache; type badgerWAL.db
+// writeSnapshot may raise a cached last index, but must not create one: the snapshot index is the last index only when the
+// log holds nothing behind it, which this function cannot know (a cold cache is filled from the disk by LastIndex)
 //@ func (*storage/wal.badgerWAL).writeSnapshot
 //@ props C06
-//@ assume
+//@ safety UNCLAIMED
+//@ ghost lastWasCached int = 0
+//@ at call (*sync.Map).Load
+//@ assume [the three cache keys are different strings (package-level variables that nothing assigns)] cacheSnapshotKey != cacheLastIndexKey && cacheFirstIndexKey != cacheLastIndexKey
+//@ set lastWasCached = ite($arg1.(string) == cacheLastIndexKey && $ret1, 1, ite($arg1.(string) == cacheLastIndexKey, 0, lastWasCached))
+//@ end
+//@ at call (*sync.Map).Store
+//@ requires [C06 never-seeds-last-index] $arg1.(string) == cacheLastIndexKey ==> lastWasCached == 1
+//@ end
+//@ requires [wal] this != nil && this.cache != nil && batch != nil
 //@ modifies * except type badgerWAL.cache; type badgerWAL.db
+
+//@ func (*sync.Map).Load
+//@ props C06
+//@ assume
+//@ modifies nothing
+//@ func (*github.com/dgraph-io/badger/v2.WriteBatch).Set
+//@ props C06
+//@ assume
+//@ modifies nothing
+//@ func (*github.com/coreos/etcd/raft/raftpb.Snapshot).Marshal
+//@ props C06
+//@ assume
+//@ modifies nothing
+//@ func (*github.com/coreos/etcd/raft/raftpb.Entry).Marshal
+//@ props C06
+//@ assume
+//@ modifies nothing
 //@ func (*storage/wal.badgerWAL).deleteEntriesFromIndex
 //@ props C06
 //@ assume
